@@ -96,6 +96,15 @@ def argvOf (cmd : List (List UInt8)) (replace : Option (List UInt8)) (extra : Li
     prog :: initial.map (replaceIn pat line)
   | _, _ => cmd ++ extra.map (·.bytes)
 
+/-- the same option given twice (clap rejects it; `-I` and `-i`/`--replace` are different options) -/
+def Opt.tag : Opt → Nat
+  | .n _ => 0 | .l _ => 1 | .s _ => 2 | .x => 3 | .r => 4 | .null => 5 | .d _ => 6
+  | .replI _ => 7 | .repl _ => 8
+
+def dupOpts : List Opt → Bool
+  | [] => false
+  | o :: os => os.any (fun p => p.tag == o.tag) || dupOpts os
+
 structure MainResult where
   status : Nat
   argvs : List (List (List UInt8))
@@ -115,6 +124,8 @@ def readInput (delim : Option UInt8) (input : List UInt8) : List Arg × Bool :=
     wired, input read and processed, exit status mapped. -/
 def xargsMain (opts : List Opt) (cmd : List (List UInt8)) (input : List UInt8)
     (script : List Outcome) (sys : Nat) : MainResult :=
+  -- clap: an option with `ArgAction::Set`/`SetTrue` may be given only once
+  if dupOpts opts then ⟨1, []⟩ else
   -- validate_positive_usize
   if opts.any (fun | .n 0 => true | .l 0 => true | .s 0 => true | _ => false) then ⟨1, []⟩ else
   let nz := normalize opts
